@@ -124,6 +124,11 @@ def harness(ctx, M, R, when, k_fd=0, second_nak=False, options=False):
                 calls.append(o2)
             else:
                 ctx.prop("resume_emits_nothing_new", len(o2.pdus) == 0, lambda: {"sig": str(o2.kinds())})
+            # the resumed stream may have moved on: a following NAK is judged against the state it meets
+            progress = rig.h.progress
+            step_before = rig.h.step
+            if "EOF" in o2.kinds() or carried:
+                when = "eof_ack"
             continue
         ctx.prop("invalid_request_is_rejected", all_valid,
                  lambda: {"sig": "request beyond progress or inverted accepted",
